@@ -14,7 +14,7 @@ Lemma filter_pred_none m k size : forall cs pos, (k < pos)%N ->
   filter_pred m (position_is k) size pos cs = Ok [].
 Proof.
   induction cs as [|c cs IH]; intros pos H; [reflexivity|].
-  cbn [filter_pred]. rewrite position_is_value. cbn [bind]. rewrite IH by lia. cbn [bind truthy].
+  cbn [filter_pred]. rewrite position_is_value. cbn [bind]. rewrite IH by lia. cbn [bind keep_py truthy].
   destruct (N.eqb_spec pos k); [lia|reflexivity].
 Qed.
 
@@ -23,11 +23,11 @@ Lemma filter_pred_kth m size : forall pre o c post,
 Proof.
   induction pre as [|x pre IH]; intros o c post.
   - cbn [app length plus filter_pred]. rewrite position_is_value. cbn [bind]. rewrite N.eqb_refl.
-    rewrite filter_pred_none by lia. cbn [bind truthy]. reflexivity.
+    rewrite filter_pred_none by lia. cbn [bind keep_py truthy]. reflexivity.
   - cbn [app length filter_pred]. rewrite position_is_value. cbn [bind].
     replace (N.of_nat (S o) + 1)%N with (N.of_nat (S (S o))) by lia.
     replace (S (length pre) + S o) with (length pre + S (S o)) by lia.
-    rewrite IH. cbn [bind truthy]. destruct (N.eqb_spec (N.of_nat (S o)) (N.of_nat (length pre + S (S o)))); [lia|reflexivity].
+    rewrite IH. cbn [bind keep_py truthy]. destruct (N.eqb_spec (N.of_nat (S o)) (N.of_nat (length pre + S (S o)))); [lia|reflexivity].
 Qed.
 
 Lemma kth_general m size X c Y n : n = length X ->
